@@ -84,6 +84,62 @@ func (i *c17ResvInterp) DeleteReservation(ctx context.Context, ref *corev1.Objec
 	return i.Interpreter.DeleteReservation(ctx, ref)
 }
 
+// c17PreemptInterp is the real interpreter plus the optional extension point reservation.Interpreter.Preemption():
+// every Reservation reports NeedPreemption() and Preempt answers from the harness's model of the preemption process.
+type c17PreemptInterp struct{ *c17ResvInterp }
+
+type c17PreemptObj struct{ reservation.Object }
+
+func (c17PreemptObj) NeedPreemption() bool { return true }
+
+func (i *c17PreemptInterp) Preemption() reservation.Preemption { return c17Preemption{env: i.env} }
+
+func (i *c17PreemptInterp) GetReservation(ctx context.Context, ref *corev1.ObjectReference) (reservation.Object, error) {
+	obj, err := i.c17ResvInterp.GetReservation(ctx, ref)
+	if obj != nil {
+		obj = c17PreemptObj{obj}
+	}
+	return obj, err
+}
+
+func (i *c17PreemptInterp) CreateReservation(ctx context.Context, job *sev1alpha1.PodMigrationJob) (reservation.Object, error) {
+	obj, err := i.c17ResvInterp.CreateReservation(ctx, job)
+	if obj != nil {
+		obj = c17PreemptObj{obj}
+	}
+	return obj, err
+}
+
+type c17Preemption struct{ env *c17Env }
+
+// Preempt: the first call starts the preemption for the reservation; it is complete only after the environment
+// event "preemption completes". While incomplete the answer takes one of the shapes an implementation may use:
+// (false, zero Result, nil) - wait for watch events; (false, RequeueAfter, nil); (false, _, error).
+func (p c17Preemption) Preempt(ctx context.Context, job *sev1alpha1.PodMigrationJob, obj reservation.Object) (bool, reconcile.Result, error) {
+	e := p.env
+	name := obj.GetName()
+	if e.preemptState[name] == 0 {
+		e.preemptState[name] = 1
+	}
+	e.sawPreemptCall = true
+	if e.preemptState[name] == 2 {
+		e.hist = append(e.hist, "    Preempt("+name+") -> complete")
+		return true, reconcile.Result{}, nil
+	}
+	switch e.preemptShape {
+	case 1:
+		e.hist = append(e.hist, "    Preempt("+name+") -> incomplete, requeue after 3s")
+		return false, reconcile.Result{RequeueAfter: 3 * time.Second}, nil
+	case 2:
+		e.faultsDelivered++
+		e.hist = append(e.hist, "    Preempt("+name+") -> incomplete, error")
+		return false, reconcile.Result{}, c17InjectedErr()
+	}
+	e.sawPreemptIncompleteZero = true
+	e.hist = append(e.hist, "    Preempt("+name+") -> incomplete, zero result, no error (waits for events)")
+	return false, reconcile.Result{}, nil
+}
+
 type c17Evictor struct{ env *c17Env }
 
 func (e c17Evictor) Evict(ctx context.Context, job *sev1alpha1.PodMigrationJob, pod *corev1.Pod) error {
@@ -114,6 +170,7 @@ type c17Job struct {
 	phasesWritten   []sev1alpha1.PodMigrationJobPhase
 	writtenTerminal sev1alpha1.PodMigrationJobPhase // first Succeeded/Failed that was written
 	nameOnlyRef     bool                            // user-supplied reservationRef without UID
+	targetBoundOwn  bool                            // the target pod itself consumed the job's reservation
 
 	// the pattern "unschedulable report -> reconcile records ReservationScheduled=False -> reservation scheduled on the
 	// target pod's own node -> reconcile": 1 = False condition persisted, 2 = then scheduled on the pod's node, 3 = then reconciled
@@ -142,18 +199,25 @@ type c17Env struct {
 	faultsDelivered   int
 	justEvicted       bool
 
-	evictImmediate bool
-	userInput      bool // second test: jobs as users write them (name-only reservationRef, unresolvable podRef), TTL expiry favoured
-	colocated      bool // generator profile: several reservation-first jobs of one workload whose reservations tend to share a node
-	jobs           []*c17Job
-	pods           []string
-	hist           []string
-	stamps         []c17Stamp
-	dead           bool
+	evictImmediate     bool
+	nextPodUnscheduled bool
+	extended           bool           // third test: unscheduled target pods that may get bound through a reservation; optional preemption
+	preempt            bool           // the interpreter offers Preemption()
+	preemptState       map[string]int // per reservation: 0 not started, 1 in progress, 2 complete
+	preemptShape       int            // how an incomplete Preempt answers during the next reconcile
+	userInput          bool           // second test: jobs as users write them (name-only reservationRef, unresolvable podRef), TTL expiry favoured
+	colocated          bool           // generator profile: several reservation-first jobs of one workload whose reservations tend to share a node
+	jobs               []*c17Job
+	pods               []string
+	hist               []string
+	stamps             []c17Stamp
+	dead               bool
 
 	// distribution
 	sawRestart, sawFaultAfterEvict, sawResvChangeWhileRunning, sawSameNode, sawEvictReplacement bool
 	sawTTLAbortNameOnlyRef, sawFirstReconcileNoPod, sawWriteAfterTerminalWrite                  bool
+	sawPreemptCall, sawPreemptIncompleteZero, sawEvictAfterPreemption, sawGivenUp               bool
+	sawTargetBoundOwnResv, sawTargetBoundAfterEvictAttempt, sawReconcileAfterTargetBound        bool
 	sawOrphanAtTTL, sawTTLAbortWithResv, sawEvictRetry, sawBoundBeforeEvict, sawClockPastTTL    bool
 }
 
@@ -183,7 +247,7 @@ func c17Describe(obj client.Object) string {
 }
 
 func c17NewEnv(c *vk.Case, scheme *runtime.Scheme) *c17Env {
-	e := &c17Env{c: c, clk: clocktesting.NewFakeClock(c17Epoch), evictedUIDs: map[types.UID]bool{}}
+	e := &c17Env{c: c, clk: clocktesting.NewFakeClock(c17Epoch), evictedUIDs: map[types.UID]bool{}, preemptState: map[string]int{}}
 	raw := fake.NewClientBuilder().WithScheme(scheme).
 		WithStatusSubresource(&sev1alpha1.PodMigrationJob{}, &sev1alpha1.Reservation{}).Build()
 	// what an API server does on create
@@ -295,6 +359,9 @@ func (e *c17Env) newReconciler() *Reconciler {
 		assumedCache:           newAssumedCache(),
 		clock:                  e.clk,
 	}
+	if e.preempt {
+		r.reservationInterpreter = &c17PreemptInterp{r.reservationInterpreter.(*c17ResvInterp)}
+	}
 	r.initObjectLimiters()
 	r.reconcilerUID = types.UID(fmt.Sprintf("reconciler-%d", e.gen))
 	return r
@@ -380,7 +447,7 @@ func c17ResvString(r *sev1alpha1.Reservation) string {
 
 // c17Gate re-states "capacity is secured" on the raw Reservation: it exists, is not pending / unschedulable /
 // expired, is scheduled on a node other than the pod's, and is not held by some other pod.
-func c17Gate(r *sev1alpha1.Reservation, pod *corev1.Pod) string {
+func c17Gate(r *sev1alpha1.Reservation, pod *corev1.Pod, preemptionComplete bool) string {
 	if r == nil {
 		return "evict:reservation-missing"
 	}
@@ -392,6 +459,14 @@ func c17Gate(r *sev1alpha1.Reservation, pod *corev1.Pod) string {
 		}
 		return "evict:reservation-pending"
 	case sev1alpha1.ReservationFailed:
+		if ready := c17ResvCond(r, sev1alpha1.ReservationConditionReady); ready == nil || ready.Reason != sev1alpha1.ReasonReservationExpired {
+			// not expired: the scheduler gave up on it (Scheduled=False/Unschedulable). Only generated together with a
+			// preemption-capable interpreter; the statement accepts the eviction once the preemption for it has completed.
+			if preemptionComplete {
+				return ""
+			}
+			return "evict:reservation-unschedulable-preemption-incomplete"
+		}
 		return "evict:reservation-expired"
 	}
 	for _, o := range r.Status.CurrentOwners {
@@ -430,7 +505,11 @@ func (e *c17Env) onEvict(ctx context.Context, job *sev1alpha1.PodMigrationJob, p
 		e.stamp("terminal:evict-for-finished-job", "Evict issued for job %s after phase %s had been written to the API (status writes so far: %v)", job.Name, j.writtenTerminal, j.phasesWritten)
 	}
 	if !j.direct {
-		if sig := c17Gate(resv, pod); sig != "" {
+		preemptionComplete := resv != nil && e.preemptState[resv.Name] == 2
+		if preemptionComplete && resv.Status.NodeName == "" {
+			e.sawEvictAfterPreemption = true
+		}
+		if sig := c17Gate(resv, pod, preemptionComplete); sig != "" {
 			// same clause, different defect: the pod found under the job's pod name is not the pod the job recorded
 			// (spec.podRef.uid, stamped by the controller itself when the job started)
 			if sig == "evict:reservation-on-pod-node" && api != nil && api.Spec.PodRef != nil && api.Spec.PodRef.UID != "" && api.Spec.PodRef.UID != pod.UID {
@@ -534,10 +613,63 @@ func (e *c17Env) createPod(name, node string, pending, ready bool) *corev1.Pod {
 			p.Status.Conditions = append(p.Status.Conditions, corev1.PodCondition{Type: corev1.PodReady, Status: corev1.ConditionTrue})
 		}
 	}
+	if e.nextPodUnscheduled {
+		// created, not yet looked at by the scheduler: no node, no PodScheduled condition
+		e.nextPodUnscheduled = false
+		p.Spec.NodeName = ""
+		p.Status.Phase = corev1.PodPending
+		p.Status.Conditions = nil
+	}
 	if err := e.base.Create(c17Ctx, p); err != nil {
 		panic(fmt.Sprintf("harness: create pod: %v", err))
 	}
 	return p
+}
+
+func c17PodUnschedulable(p *corev1.Pod) bool {
+	for _, c := range p.Status.Conditions {
+		if c.Type == corev1.PodScheduled && c.Status == corev1.ConditionFalse {
+			return true
+		}
+	}
+	return false
+}
+
+// resvGiveUp: a scheduler with preemption support stops retrying a reservation that fits nowhere (not generated for the
+// stock interpreter: koord-scheduler leaves such a reservation Pending).
+func (e *c17Env) resvGiveUp(r *sev1alpha1.Reservation) {
+	now := metav1.NewTime(e.clk.Now())
+	r.Status.Phase = sev1alpha1.ReservationFailed
+	if c := c17ResvCond(r, sev1alpha1.ReservationConditionScheduled); c != nil {
+		c.Status, c.Reason, c.LastProbeTime = sev1alpha1.ConditionStatusFalse, sev1alpha1.ReasonReservationUnschedulable, now
+	} else {
+		r.Status.Conditions = append(r.Status.Conditions, sev1alpha1.ReservationCondition{Type: sev1alpha1.ReservationConditionScheduled,
+			Status: sev1alpha1.ConditionStatusFalse, Reason: sev1alpha1.ReasonReservationUnschedulable, Message: "0/3 nodes are available", LastProbeTime: now, LastTransitionTime: now})
+	}
+	e.updateResvStatus(r)
+	e.sawGivenUp = true
+	e.hist = append(e.hist, fmt.Sprintf("env: scheduler gives up on reservation %s: unschedulable without preemption", r.Name))
+}
+
+// resvBindExisting: an existing, not yet scheduled pod of the workload is placed on the reservation's node by consuming it.
+func (e *c17Env) resvBindExisting(r *sev1alpha1.Reservation, p *corev1.Pod, ready bool) {
+	p.Spec.NodeName = r.Status.NodeName
+	p.Status.Phase = corev1.PodRunning
+	p.Status.Conditions = []corev1.PodCondition{{Type: corev1.PodScheduled, Status: corev1.ConditionTrue}}
+	if ready {
+		p.Status.Conditions = append(p.Status.Conditions, corev1.PodCondition{Type: corev1.PodReady, Status: corev1.ConditionTrue})
+	}
+	if err := e.base.Update(c17Ctx, p); err != nil {
+		panic(fmt.Sprintf("harness: update pod: %v", err))
+	}
+	now := metav1.NewTime(e.clk.Now())
+	r.Status.CurrentOwners = []corev1.ObjectReference{{Namespace: p.Namespace, Name: p.Name, UID: p.UID}}
+	r.Status.Phase = sev1alpha1.ReservationSucceeded
+	if c := c17ResvCond(r, sev1alpha1.ReservationConditionReady); c != nil {
+		c.Status, c.Reason, c.LastProbeTime = sev1alpha1.ConditionStatusFalse, sev1alpha1.ReasonReservationSucceeded, now
+	}
+	e.updateResvStatus(r)
+	e.hist = append(e.hist, fmt.Sprintf("env: unscheduled pod %s (uid %s) is scheduled on %s by consuming reservation %s", p.Name, p.UID, r.Status.NodeName, r.Name))
 }
 
 // ---------------------------------------------------------------- environment: reservations (what koord-scheduler does)
@@ -705,7 +837,7 @@ func (e *c17Env) createJob(t *rapid.T) {
 			tmpl := &corev1.PodTemplateSpec{ObjectMeta: metav1.ObjectMeta{Labels: map[string]string{"app": "wl"}}, Spec: *pod.Spec.DeepCopy()}
 			tmpl.Spec.NodeName = ""
 			owners := []sev1alpha1.ReservationOwner{{Controller: &sev1alpha1.ReservationControllerReference{OwnerReference: c17OwnerRef(), Namespace: c17NS}}}
-			if pod.Spec.NodeName == "" {
+			if pod.Spec.NodeName == "" && c17PodUnschedulable(pod) {
 				owners = []sev1alpha1.ReservationOwner{{Object: &corev1.ObjectReference{Kind: "Pod", Namespace: pod.Namespace, Name: pod.Name, UID: pod.UID}}}
 			}
 			resv := &sev1alpha1.Reservation{
@@ -774,6 +906,9 @@ func (e *c17Env) reconcile(t *rapid.T, j *c17Job) {
 	e.hist = append(e.hist, fmt.Sprintf("reconcile %s (t=+%v, reconciler #%d)", j.name, e.clk.Now().Sub(c17Epoch), e.gen))
 	if (prePhase == "" || prePhase == sev1alpha1.PodMigrationJobPending) && e.getPod(j.podName) == nil {
 		e.sawFirstReconcileNoPod = true
+	}
+	if j.targetBoundOwn && !preTerminal {
+		e.sawReconcileAfterTargetBound = true
 	}
 	res, err := e.r.Reconcile(c17Ctx, reconcile.Request{NamespacedName: types.NamespacedName{Name: j.name}})
 	e.justEvicted = false
@@ -902,6 +1037,11 @@ func TestVerifC17History(t *testing.T) { c17RunTest(t, "history", false) }
 // (A separate test function so that the draw sequence of TestVerifC17History, and its recorded fail files, stay as they are.)
 func TestVerifC17UserInput(t *testing.T) { c17RunTest(t, "userInput", true) }
 
+// TestVerifC17Extended adds (own draws, own test function for the same reason) target pods that are not scheduled yet and may
+// be placed by consuming a job's reservation - also the target pod through its own job's reservation -, rejected evictions
+// armed from the start, and in half of the cases a reservation interpreter that offers the Preemption() extension point.
+func TestVerifC17Extended(t *testing.T) { c17RunTest(t, "extended", false) }
+
 func c17RunTest(t *testing.T, unit string, userInput bool) {
 	rec := vk.New(t, "C17", unit)
 	c17QuietKlog()
@@ -919,6 +1059,10 @@ func c17RunTest(t *testing.T, unit string, userInput bool) {
 		c17UUIDCounter = 0
 		e := c17NewEnv(c, scheme)
 		e.userInput = userInput
+		e.extended = unit == "extended"
+		if e.extended {
+			e.preempt = rapid.Bool().Draw(t, "interpreterOffersPreemption")
+		}
 
 		var v1a2 v1alpha2.MigrationControllerArgs
 		v1alpha2.SetDefaults_MigrationControllerArgs(&v1a2)
@@ -939,12 +1083,16 @@ func c17RunTest(t *testing.T, unit string, userInput bool) {
 			maxJobs = 2
 			args.DefaultJobMode = string(sev1alpha1.PodMigrationJobModeReservationFirst)
 		}
-		pendingPod := false
+		pendingPod, unscheduledPod := false, false
 		for i := 0; i < nPods; i++ {
 			name := fmt.Sprintf("pod-%d", i)
 			pending := rapid.SampledFrom([]bool{false, false, false, false, false, false, false, false, false, true}).Draw(t, "podPending") && !e.colocated
 			pendingPod = pendingPod || pending
 			node := rapid.SampledFrom(c17Nodes[:2]).Draw(t, "podNode")
+			if e.extended && !pending && rapid.IntRange(0, 2).Draw(t, "podUnscheduled") == 2 {
+				e.nextPodUnscheduled = true
+				unscheduledPod = true
+			}
 			p := e.createPod(name, node, pending, true)
 			e.pods = append(e.pods, name)
 			e.hist = append(e.hist, fmt.Sprintf("pod %s uid=%s node=%q pending=%v", name, p.UID, p.Spec.NodeName, pending))
@@ -954,6 +1102,13 @@ func c17RunTest(t *testing.T, unit string, userInput bool) {
 		e.createJob(t)
 		if maxJobs > 1 && (e.colocated || rapid.Bool().Draw(t, "secondJobAtStart")) {
 			e.createJob(t)
+		}
+		if e.extended && rapid.Bool().Draw(t, "firstEvictRejected") {
+			e.evictFailArmed = rapid.IntRange(1, 3).Draw(t, "rejections")
+			e.hist = append(e.hist, fmt.Sprintf("fault plan: the next %d Evict call(s) are rejected", e.evictFailArmed))
+		}
+		if e.preempt {
+			e.hist = append(e.hist, "reservation interpreter offers Preemption(); reservations report NeedPreemption()")
 		}
 		if e.colocated {
 			// this profile aims at "the eviction went through but could not be recorded" / "the eviction was rejected"
@@ -980,6 +1135,9 @@ func c17RunTest(t *testing.T, unit string, userInput bool) {
 		doReconcile := func(t *rapid.T) {
 			if e.dead {
 				return
+			}
+			if e.preempt {
+				e.preemptShape = rapid.IntRange(0, 2).Draw(t, "incompletePreemptAnswers")
 			}
 			e.reconcile(t, pickJob(t))
 		}
@@ -1014,6 +1172,7 @@ func c17RunTest(t *testing.T, unit string, userInput bool) {
 			}
 			return true
 		}
+		var schedViaResv func(t *rapid.T, j *c17Job) // extended test only
 		scheduleOn := func(j *c17Job, r *sev1alpha1.Reservation, node string) {
 			if p := e.getPod(j.podName); p != nil && p.Spec.NodeName == node {
 				e.sawSameNode = true
@@ -1047,6 +1206,20 @@ func c17RunTest(t *testing.T, unit string, userInput bool) {
 					}
 				}
 				switch {
+				// (extended test, preemption-capable scheduler) no node fits: report unschedulable, then give up; victims leave later
+				case e.preempt && r != nil && !j.direct && c17ResvIsPending(r) && rapid.Bool().Draw(t, "noNodeFits"):
+					if c17ResvCond(r, sev1alpha1.ReservationConditionScheduled) == nil {
+						e.resvUnschedulable(r, rapid.Bool().Draw(t, "setPhase"), "0/3 nodes are available")
+					} else {
+						e.resvGiveUp(r)
+					}
+				case e.preempt && r != nil && e.preemptState[r.Name] == 1 && rapid.Bool().Draw(t, "victimsLeave"):
+					e.preemptState[r.Name] = 2
+					e.markResvChanged(r.Name)
+					e.hist = append(e.hist, fmt.Sprintf("env: preemption for reservation %s completes (victims gone)", r.Name))
+				// (extended test) a target pod still waiting for the scheduler, whose eviction was attempted but is not on record, gets placed
+				case e.extended && schedViaResv != nil && pod != nil && pod.Spec.NodeName == "" && !c17PodUnschedulable(pod) && j.evicts > 0 && ev == nil && r != nil && bindable(r) && !ownedByOnePod(r) && rapid.Bool().Draw(t, "placeTarget"):
+					schedViaResv(t, j)
 				case pod != nil && (e.evictedUIDs[pod.UID] || (ev != nil && ev.Status == sev1alpha1.PodMigrationJobConditionStatusFalse)):
 					// an eviction that went through removes the pod, whether or not the controller managed to record it
 					_ = e.base.Delete(c17Ctx, pod)
@@ -1305,7 +1478,7 @@ func c17RunTest(t *testing.T, unit string, userInput bool) {
 			return func(t *rapid.T) { all[rapid.SampledFrom(names).Draw(t, "what")](t) }
 		}
 		resvEvent := group("resvSchedule", "resvSchedule", "resvSchedule", "resvUnschedulable", "resvExpire", "resvDelete", "resvBind", "resvBind")
-		t.Repeat(map[string]func(*rapid.T){
+		actions := map[string]func(*rapid.T){
 			"":                        all[""],
 			"reconcile-a":             doReconcile,
 			"reconcile-b":             doReconcile,
@@ -1323,7 +1496,78 @@ func c17RunTest(t *testing.T, unit string, userInput bool) {
 			"clock":                   all["clock"],
 			"fault":                   all["fault"],
 			"restart-or-new-job":      group("restart", "createJob", "createJob"),
-		})
+		}
+		if e.extended {
+			// the scheduler places a not yet scheduled pod of the workload - possibly a job's own target - through a reservation
+			schedViaResv = func(t *rapid.T, j *c17Job) {
+				p := e.getPod(j.podName)
+				if p == nil || p.Spec.NodeName != "" || c17PodUnschedulable(p) {
+					t.Skip("target pod is not waiting for the scheduler")
+				}
+				// mostly after an eviction has been attempted (rejected or unrecorded), the window the property worries about
+				if j.evicts == 0 && rapid.IntRange(0, 2).Draw(t, "early") > 0 {
+					t.Skip("later")
+				}
+				var free []*sev1alpha1.Reservation
+				for _, o := range e.jobs {
+					if fr := e.getResv(o.resvName); fr != nil && bindable(fr) && !ownedByOnePod(fr) {
+						if o == j {
+							free = append(free, fr) // the job's own reservation: twice as likely
+						}
+						free = append(free, fr)
+					}
+				}
+				if len(free) == 0 {
+					t.Skip("no reservation to consume")
+				}
+				fr := free[rapid.IntRange(0, len(free)-1).Draw(t, "whichReservation")]
+				if fr.Name == j.resvName {
+					j.targetBoundOwn = true
+					e.sawTargetBoundOwnResv = true
+					if api := e.getJob(j.name); api != nil && j.evicts > 0 && !c17Terminal(api.Status.Phase) && c17JobCond(api, sev1alpha1.PodMigrationJobConditionEviction) == nil {
+						e.sawTargetBoundAfterEvictAttempt = true
+					}
+				}
+				e.resvBindExisting(fr, p, rapid.Bool().Draw(t, "ready"))
+			}
+			act := func(t *rapid.T) {
+				if e.dead {
+					return
+				}
+				schedViaResv(t, pickJob(t))
+			}
+			actions["target-scheduled-via-reservation-a"] = act
+			actions["target-scheduled-via-reservation-b"] = act
+			actions["target-scheduled-via-reservation-c"] = act
+		}
+		if e.preempt {
+			giveUp := func(t *rapid.T) {
+				if e.dead {
+					return
+				}
+				j, r := pickResv(t, c17ResvIsPending)
+				if j.direct {
+					t.Skip("direct mode")
+				}
+				if c17ResvCond(r, sev1alpha1.ReservationConditionScheduled) == nil {
+					e.resvUnschedulable(r, rapid.Bool().Draw(t, "setPhase"), "0/3 nodes are available")
+				} else {
+					e.resvGiveUp(r)
+				}
+			}
+			actions["scheduler-gives-up-a"] = giveUp
+			actions["scheduler-gives-up-b"] = giveUp
+			actions["preemption-completes"] = func(t *rapid.T) {
+				if e.dead {
+					return
+				}
+				_, r := pickResv(t, func(r *sev1alpha1.Reservation) bool { return e.preemptState[r.Name] == 1 })
+				e.preemptState[r.Name] = 2
+				e.markResvChanged(r.Name)
+				e.hist = append(e.hist, fmt.Sprintf("env: preemption for reservation %s completes (victims gone)", r.Name))
+			}
+		}
+		t.Repeat(actions)
 
 		// ---- distribution
 		evicted, afterTerminal, direct, rfirst := false, false, false, false
@@ -1367,6 +1611,15 @@ func c17RunTest(t *testing.T, unit string, userInput bool) {
 		c.ClassIf(e.sawTTLAbortWithResv, "ttl-abort-with-reservation")
 		c.ClassIf(e.sawOrphanAtTTL, "ttl-abort-leaves-unreferenced-reservation(not asserted)")
 		c.ClassIf(e.sawTTLAbortNameOnlyRef, "ttl-abort-of-job-with-name-only-reservation-ref")
+		c.ClassIf(e.preempt, "interpreter-offers-preemption")
+		c.ClassIf(e.sawGivenUp, "reservation-given-up-as-unschedulable")
+		c.ClassIf(e.sawPreemptCall, "preempt-called")
+		c.ClassIf(e.sawPreemptIncompleteZero, "preempt-answers-incomplete-with-zero-result-and-no-error")
+		c.ClassIf(e.sawEvictAfterPreemption, "evict-after-completed-preemption-of-unscheduled-reservation")
+		c.ClassIf(unscheduledPod, "not-yet-scheduled-target-pod")
+		c.ClassIf(e.sawTargetBoundOwnResv, "target-pod-consumes-its-own-jobs-reservation")
+		c.ClassIf(e.sawTargetBoundAfterEvictAttempt, "target-pod-consumes-own-reservation-after-unrecorded-evict-attempt")
+		c.ClassIf(e.sawTargetBoundAfterEvictAttempt && e.sawReconcileAfterTargetBound, "...and-the-job-is-reconciled-again")
 		c.ClassIf(e.sawFirstReconcileNoPod, "unstarted-job-reconciled-while-target-pod-unresolvable")
 		c.ClassIf(e.sawWriteAfterTerminalWrite, "status-write-after-terminal-phase-was-written")
 		for _, j := range e.jobs {
